@@ -87,6 +87,19 @@ fn main() {
                     }
                 }
             }
+            // near-miss moduli for C08 (file name = measured modulus bits); openssl made the even sizes and
+            // rsa2048_3.der / rsa4096_2.der, which have the public exponent 3 (the rsa crate refuses > 4096 bits)
+            for bits in [2049usize, 4095] {
+                let p = format!("{dir}/rsa{bits}_x.der");
+                while !std::path::Path::new(&p).exists() {
+                    use rsa::pkcs1::DecodeRsaPrivateKey;
+                    use rsa::traits::PublicKeyParts;
+                    let der = tok::gen_rsa_der(bits);
+                    if rsa::RsaPrivateKey::from_pkcs1_der(&der).unwrap().n().bits() == bits {
+                        std::fs::write(&p, der).unwrap();
+                    }
+                }
+            }
         }
         "c01" => c01::run(&ctx),
         "c02" => c02::run(&ctx),
